@@ -27,7 +27,7 @@ tree = fresh
 def run(cmd, env=None):
     e = dict(os.environ); e.update(env or {})
     p = subprocess.run(cmd, shell=True, capture_output=True, text=True, env=e)
-    return p.returncode, (p.stdout + p.stderr)[-1500:]
+    return p.returncode, (p.stdout + p.stderr)[-200000:]
 demo = os.path.join(dst, "demo.py")
 rc0, out0 = run(f"PYTHONPATH=/repo /venv/bin/python {demo}")
 rc1, out1 = run(f"PYTHONPATH={tree} /venv/bin/python {demo}")
